@@ -1,4 +1,5 @@
 // C03 - payloads accepted by validation expose only in-bounds data.
+#include "../common/tecmp.h"
 #include "../common/views.h"
 
 using namespace vf;
@@ -6,7 +7,8 @@ using namespace vf;
 struct Case
 {
     uint8_t cls{0};
-    uint8_t path{0};       // 0 class validator + constructor, 1 message buffer -> Packet constructor, 2 frame -> Decoder
+    uint8_t path{0};       // 0 class validator + constructor, 1 message buffer -> Packet constructor, 2 frame -> Decoder,
+                           // 3 the payload travels as a TECMP message: Decoder::decode converts it, the returned packets are swept
     uint8_t bg{0};         // background 0 zeros, 1 ones, 2 pseudo-random(seed), 3 pseudo-random without any zero byte
     uint8_t normalize{1};  // clear the header bits that make the class's validator reject outright (error flags, status > 2, ...)
     uint32_t seed{0};
@@ -156,6 +158,56 @@ static bool innerLengthPositive(const Case& c, const Bytes& b)
 
 static Verdict runCase(const Case& c, Info& info)
 {
+    if (c.path == 3)
+    {
+        // TECMP path: packets built by the converter are "accepted" payloads too - their views must stay inside their bytes
+        TecmpRecipe r;
+        r.device = static_cast<uint8_t>(c.seed);
+        r.interfaceId = c.seed * 7u;
+        r.timestamp = c.seed * 0x10001ull;
+        r.seed = c.seed;
+        Bytes bg(std::min<uint32_t>(c.size, 300));
+        for (size_t i = 0; i < bg.size(); ++i)
+            bg[i] = c.bg == 0 ? 0 : c.bg == 1 ? 0xFF : c.bg == 3 ? (fillByte(c.seed, i) ? fillByte(c.seed, i) : uint8_t(0xA5)) : fillByte(c.seed, i);
+        int32_t declared = c.vals.empty() || c.vals[0] < 0 ? -1 : (c.vals[0] & 0xFF);
+        switch (c.cls)
+        {
+            case pcLin:
+                r.msgType = wire::kTecmpMtData, r.dataType = wire::kTecmpDtLin, r.kind = 1, r.pid = static_cast<uint8_t>(c.seed >> 8);
+                r.data = bg, r.declaredLen = declared, r.trailer = Bytes(c.extra % 2, 0x5C);
+                break;
+            case pcCm:
+                r.msgType = wire::kTecmpMtCmStatus, r.dataType = 0, r.kind = 2, r.trailer = Bytes(c.extra % 5, 0x11);
+                break;
+            case pcIf:
+                r.msgType = wire::kTecmpMtBusStatus, r.dataType = 0, r.kind = 3, r.entries = static_cast<uint16_t>(c.size % 24);
+                break;
+            default:
+                r.msgType = wire::kTecmpMtData, r.dataType = (c.cls == pcCan ? 2 : 3), r.kind = 0;
+                r.arbId = (c.seed * 2654435761u) & (c.normalize ? 0x9FFFFFFFu : 0xFFFFFFFFu);
+                r.data = bg, r.declaredLen = declared, r.trailer = Bytes(c.extra % 4, 0x77);
+                break;
+        }
+        Bytes frame = r.build();
+        lib::Decoder dec;
+        auto got = decodeOwned(dec, frame);
+        ViewStats tvs;
+        bool any = false;
+        for (const auto& p : got)
+        {
+            VF_CHECK(p != nullptr, "null packet");
+            bool typed = false;
+            VF_TRY(sweepPacket(*p, tvs, &typed));
+            any = any || typed;
+        }
+        info.tag("path_tecmp_conversion");
+        info.tag(any ? "accepted" : "rejected");
+        info.count("views_checked", tvs.views);
+        info.count("non_empty_views", tvs.nonEmptyViews);
+        info.nontrivial = any && tvs.nonEmptyViews > 0;
+        return Verdict::pass();
+    }
+
     Bytes payload = buildPayloadBytes(c);
     ViewStats vs;
     bool accepted = false;
@@ -424,6 +476,38 @@ static void enumerate(int tier, const std::function<bool(const Case&)>& emit)
                     }
                 }
     }
+    // TECMP path: CAN / CAN-FD / LIN data of every length 0..255 (consistent length byte, and one less / more), with and
+    // without trailer bytes; status messages
+    for (uint8_t cls : {uint8_t(pcCan), uint8_t(pcCanFd), uint8_t(pcLin)})
+        for (uint32_t n = 0; n <= 255; ++n)
+            for (int32_t d : {0, -1, 1})
+                for (uint8_t extra : {uint8_t(0), uint8_t(1), uint8_t(3)})
+                {
+                    Case c;
+                    c.cls = cls;
+                    c.path = 3;
+                    c.bg = 2;
+                    c.normalize = 1;
+                    c.seed = n * 3 + cls;
+                    c.size = n;
+                    c.extra = extra;
+                    if (d != 0)
+                        c.vals = {static_cast<int32_t>((static_cast<int32_t>(n) + d) & 0xFF)};
+                    if (!emit(c))
+                        return;
+                }
+    for (uint8_t cls : {uint8_t(pcCm), uint8_t(pcIf)})
+        for (uint32_t n = 0; n < 24; ++n)
+        {
+            Case c;
+            c.cls = cls;
+            c.path = 3;
+            c.seed = n + 1;
+            c.size = n;
+            c.extra = static_cast<uint8_t>(n % 5);
+            if (!emit(c))
+                return;
+        }
     // capture-module payloads without a single zero byte behind string k (content-dependent reads: an accessor that scans for a
     // terminator must stop at the field's end): strings before k short, string k unterminated, every later prefix >= 0x0101
     for (int k = 0; k < 4; ++k)
@@ -472,7 +556,7 @@ static rc::Gen<Case> genCase(int tier)
     return rc::gen::exec([tier]() {
         Case c;
         c.cls = *range<uint8_t>(0, pcCount - 1);
-        c.path = *rc::gen::weightedElement<uint8_t>({{3, 0}, {1, 1}, {2, 2}});
+        c.path = *rc::gen::weightedElement<uint8_t>({{3, 0}, {1, 1}, {2, 2}, {1, 3}});
         c.bg = *rc::gen::weightedElement<uint8_t>({{1, 0}, {1, 1}, {4, 2}, {2, 3}});
         c.normalize = *rc::gen::weightedElement<uint8_t>({{5, 1}, {1, 0}});
         c.seed = *rc::gen::arbitrary<uint32_t>();
@@ -533,6 +617,6 @@ int main(int argc, char** argv)
     prop.enumerationNote = "per typed class: every size 0..header+8 (thorough ..header+40) and header+{16,64,255,256}; every value 0..rest+2 and "
                            "{0x7F,0x80,0xFF,0x100,0xFFFE,0xFFFF} of the inner length field; CM: all combinations of the five prefixes over "
                            "{0,1,2,3,fits,fits+1,0xFFFF}, and payloads without any zero byte behind string k; IF: stream-id count x vendor length; backgrounds zero / ones / pseudo-random; paths "
-                           "class validator / Packet constructor / Decoder";
+                           "class validator / Packet constructor / Decoder / TECMP conversion (every CAN, CAN-FD, LIN data length 0..255)";
     return pbtMain(argc, argv, prop);
 }
